@@ -46,6 +46,7 @@ func runC10(c *Ctx) {
 	sysctlCause(c, "R-C10-12")
 	listenClassifiesBeforeCancel(c, "R-C10-13")
 	initCancelReturnsErr(c, "R-C10-14")
+	onlyWatcherReceivesChanges(c, "R-C10-4")
 }
 
 // c10RetryOnlyTimeouts (R-C10-11): a failed read is retried on the same
@@ -1360,4 +1361,63 @@ func initCancelReturnsErr(c *Ctx, rule string) {
 	}
 	c.R.Check(n >= 1 && bad == "", rule, fn+":cancel-returns-ctx-err", fn, c.pos(ini.Pos()), fmt.Sprintf("%d cancellation path(s); %s", n, bad),
 		"the ctx.Done() arm of the back-off returns ctx.Err()", "a stop during the dial back-off is reported as a task failure (Dial only maps context.Canceled to a clean return)")
+}
+
+// onlyWatcherReceivesChanges (R-C10-4): a link change is consumed only by the
+// goroutine that turns it into ErrLinkChange. Any other receive on a
+// netstate.Change channel in package corerad (draining "stale" events after a
+// dial, peeking) can swallow the event that belongs to the connection just
+// opened: the task then stays on a socket whose link has changed.
+func onlyWatcherReceivesChanges(c *Ctx, rule string) {
+	isChangeCh := func(t types.Type) bool {
+		ch, ok := t.Underlying().(*types.Chan)
+		if !ok {
+			return false
+		}
+		n, ok := ch.Elem().(*types.Named)
+		return ok && n.Obj().Pkg() != nil && n.Obj().Pkg().Path() == PkgNet && n.Obj().Name() == "Change"
+	}
+	returnsLinkChange := func(f *ssa.Function) bool {
+		for _, b := range f.Blocks {
+			for _, in := range b.Instrs {
+				if u, ok := in.(*ssa.UnOp); ok && u.Op == token.MUL {
+					if g, ok := u.X.(*ssa.Global); ok && g.Name() == "ErrLinkChange" {
+						return true
+					}
+				}
+			}
+		}
+		return false
+	}
+	n := 0
+	for _, f := range c.srcFuncs() {
+		if f.Pkg == nil || f.Pkg.Pkg.Path() != PkgCorerad {
+			continue
+		}
+		for _, b := range f.Blocks {
+			for _, in := range b.Instrs {
+				var at token.Pos
+				recv := false
+				switch x := in.(type) {
+				case *ssa.UnOp:
+					if x.Op == token.ARROW && isChangeCh(x.X.Type()) {
+						recv, at = true, x.Pos()
+					}
+				case *ssa.Select:
+					for _, st := range x.States {
+						if st.Dir == types.RecvOnly && isChangeCh(st.Chan.Type()) {
+							recv, at = true, x.Pos()
+						}
+					}
+				}
+				if !recv {
+					continue
+				}
+				n++
+				c.R.Check(returnsLinkChange(f), rule, c.fname(f)+":receives-link-changes", c.fname(f), c.pos(at), "receive on a netstate.Change channel in "+c.fname(f),
+					"link changes are received only by the watcher goroutine, which reports ErrLinkChange", "a link change is consumed without stopping the task: the interface stays half-alive on its old socket")
+			}
+		}
+	}
+	c.R.Check(n >= 1, rule, "corerad:change-receives", "", "", fmt.Sprintf("%d receive(s) on a Change channel", n), ">= 1", "anchor-missing")
 }
